@@ -292,6 +292,14 @@ func (e *Engine) Execute(tr core.Trace, ctx *core.Ctx) {
 
 	var code, mem *elf.Memory
 	var cerr, merr error
+	if t.Twice && t.Read == nil {
+		// an earlier pair of calls on the same parser, results dropped
+		if fn, msg, panicked = core.Guard(func() { p.Memory(); p.MachineCode() }); panicked {
+			ctx.Fail(P, "no-crash", "panic/"+fn+"/first-call", ev, "the first Memory/MachineCode call panicked: %s", msg)
+			return
+		}
+		ctx.Probe("loaded_twice")
+	}
 	fn, msg, panicked = core.Guard(func() { code, cerr = p.MachineCode() })
 	if panicked {
 		ctx.Fail(P, "no-crash", "panic/"+fn+"/machinecode", ev, "MachineCode panicked: %s", msg)
